@@ -119,7 +119,7 @@ func run(in input) vh.Result {
 	steps := make([]msgh.Step, len(in.Ops))
 	for i, op := range in.Ops {
 		rc.inflight.Store(true)
-		out, _ := e.Exec(op)
+		out, dumps := e.Exec(op)
 		rc.mu.Lock()
 		rc.done.Add(1)
 		rc.inflight.Store(false)
@@ -127,7 +127,7 @@ func run(in input) vh.Result {
 			rc.take(0) // the mutation has returned: it must survive a power loss now
 		}
 		rc.mu.Unlock()
-		steps[i] = msgh.Step{Out: out}
+		steps[i] = msgh.Step{Out: out, Dumps: dumps}
 	}
 	rc.armed.Store(false)
 	finalKV := e.FinalKV()
